@@ -78,7 +78,7 @@ func init() {
 		if err != nil {
 			return err
 		}
-		var total, same, differ, ambDiffer, panics int64
+		var total, same, differ, ambDiffer, panics, secondDiffer int64
 		var mu sync.Mutex
 		var samples []any
 		err = vh.ReadLines(*in, runtime.NumCPU(), func(i int, line []byte) {
@@ -88,12 +88,20 @@ func init() {
 			}
 			pred := normHist(b.Hist)
 			for rep := 0; rep < *reps; rep++ {
-				run := &vh.RouterRun{Cfg: &b.Cfg, Scale: *scale, Slen: b.Slen, EndKind: b.EndKind, Pulls: pullsOf(b.Hist), Tag: int64(i)}
+				run := &vh.RouterRun{Cfg: &b.Cfg, Scale: *scale, Slen: b.Slen, EndKind: b.EndKind, Pulls: pullsOf(b.Hist), Tag: int64(i), Second: true}
 				hist, _, err := vh.RunRouter(run)
 				if err != nil {
 					panic(fmt.Sprintf("line %d: %v", i, err))
 				}
 				atomic.AddInt64(&total, 1)
+				// a second, identical connection through the same compiled route list must be routed by the same rules:
+				// identical history = covered by the judgement of the first, otherwise judged on its own
+				if !reflect.DeepEqual(normHist(toGeneric(run.SecondHist)), normHist(toGeneric(hist))) {
+					atomic.AddInt64(&secondDiffer, 1)
+					lw.Write(traceOut{ID: fmt.Sprintf("replay:%d:%d:second", i, rep), Cfg: vh.ScaleCfg(&b.Cfg, *scale), Hist: run.SecondHist,
+						Limit: 8192, Chunk: 2048, Note: "second connection through the same compiled route list; differs from the first",
+						Run: map[string]any{"slen": b.Slen * *scale, "endKind": b.EndKind, "predicted": b.Hist, "scale": *scale, "ambiguous": b.Amb}})
+				}
 				scaled, ok := vh.ScaleHist(hist, *scale)
 				if ok && reflect.DeepEqual(normHist(toGeneric(scaled)), pred) {
 					atomic.AddInt64(&same, 1)
@@ -127,7 +135,7 @@ func init() {
 			return err
 		}
 		return writeJSON(*sum, map[string]any{"replayed": total, "identical_to_prediction": same, "different": differ,
-			"different_and_ambiguous": ambDiffer, "panics": panics, "samples": samples})
+			"different_and_ambiguous": ambDiffer, "second_connection_different": secondDiffer, "panics": panics, "samples": samples})
 	})
 
 	register("router-one", "re-run one recorded router trace (a replay file) on the real code", func(args []string) error {
